@@ -36,20 +36,6 @@ class SitePattern(Model):
     def handle_parameter_changed(self, variable, index, event):
         pass
 
-    def cuda(self, device: Optional[Union[int, torch.device]] = None) -> None:
-        self.weights = self.weights.cuda(device)
-        for idx, partial in enumerate(self.partials):
-            if partial is None:
-                break
-            self.partials[idx] = partial.cuda(device)
-
-    def cpu(self) -> None:
-        self.weights = self.weights.cpu()
-        for idx, partial in enumerate(self.partials):
-            if partial is None:
-                break
-            self.partials[idx] = partial.cpu()
-
     def _sample_shape(self) -> torch.Size:
         return torch.Size([])
 
